@@ -474,7 +474,10 @@ func (p *twkbParser) nextPolygon() (Polygon, error) {
 			// already closed. We wish to gracefully parse these cases too.
 			// So check if any of the first and final point's coords differ.
 			finalPointDiffersFromFirst := false
-			for d := 0; d < p.dimensions; d++ {
+			// A ring is closed when its final point repeats the XY of its
+			// first point. Z and M values may differ between the two, so they
+			// are not considered (otherwise a vertex would be invented).
+			for d := 0; d < 2; d++ {
 				first := coords[d]
 				final := coords[d+(numPoints-1)*p.dimensions]
 				if first != final {
